@@ -621,6 +621,10 @@ def run(ctx):
     from . import c01
     before = len(ctx.obligations)
     c01.r01_export(ctx, c01.pit_layer_classes(ctx.repo))
+    # ... and the sizes it receives (and summary() reports) are the element counts of the very
+    # masks forward and the slicing use: a count taken with another comparison (>= instead of
+    # the binarizer's >) differs exactly for a parameter that sits on the threshold
+    c01.r01f(ctx, c01.pit_layer_classes(ctx.repo))
     for o in ctx.obligations[before:]:
         o.rule = 'R08h'
     # which layers share a masker -- and therefore which layers are frozen with the group that
